@@ -252,3 +252,730 @@ Proof.
   destruct (find_from_safe (s_elems s) name (s_leaves s) 0%Z HB) as (j & Hj & Hr).
   exists j. split; [exact Hj|]. unfold num_columns. lia.
 Qed.
+
+(** ------------------------------------------------------------------------------------------------
+    Part 2: flattenings of trees - the traversal computes the textbook columns *)
+
+(** induction principle for rose trees (nested recursion through lists) *)
+Section TreeInd.
+  Variable P : tree -> Prop.
+  Variable Q : list tree -> Prop.
+  Hypothesis HL : forall r i, P (Leaf r i).
+  Hypothesis HG : forall r nm cs, Q cs -> P (Group r nm cs).
+  Hypothesis HN : Q [].
+  Hypothesis HC : forall t ts, P t -> Q ts -> Q (t :: ts).
+  Fixpoint tree_ind2 (t : tree) : P t :=
+    match t with
+    | Leaf r i => HL r i
+    | Group r nm cs =>
+        HG r nm cs ((fix go (l : list tree) : Q l :=
+                       match l with [] => HN | c :: l' => HC c l' (tree_ind2 c) (go l') end) cs)
+    end.
+  Definition forest_ind2 : forall l, Q l :=
+    fix go (l : list tree) : Q l := match l with [] => HN | c :: l' => HC c l' (tree_ind2 c) (go l') end.
+End TreeInd.
+
+Definition cdef (rp : repetition) : Z := if not_required rp then 1%Z else 0%Z.
+Definition crep (rp : repetition) : Z := if is_repeated rp then 1%Z else 0%Z.
+
+Lemma max_def_cons : forall rp p, max_def (rp :: p) = (cdef rp + max_def p)%Z.
+Proof. intros [] p; unfold max_def, cdef; cbn [filter not_required length]; lia. Qed.
+Lemma max_rep_cons : forall rp p, max_rep (rp :: p) = (crep rp + max_rep p)%Z.
+Proof. intros [] p; unfold max_rep, crep; cbn [filter is_repeated length]; lia. Qed.
+Lemma max_def_nil : max_def [] = 0%Z. Proof. reflexivity. Qed.
+Lemma max_rep_nil : max_rep [] = 0%Z. Proof. reflexivity. Qed.
+
+(** levels of a leaf record below inherited levels d, r *)
+Definition lv (d r : Z) (x : lrec) : nat * Z * Z :=
+  match x with (pos, p, _) => (pos, (d + max_def p)%Z, (r + max_rep p)%Z) end.
+
+Lemma lv_push : forall d r rp x, lv d r (push rp x) = lv (d + cdef rp) (r + crep rp) x.
+Proof.
+  intros d r rp [[pos p] i]. unfold lv, push. rewrite max_def_cons, max_rep_cons.
+  f_equal; [f_equal|]; lia.
+Qed.
+
+Lemma paths_from_group : forall s r nm cs, paths_from s (Group r nm cs) = map (push r) (forest_from (S s) cs).
+Proof. reflexivity. Qed.
+
+Lemma size_pos : forall t, 1 <= size t.
+Proof. destruct t; simpl; lia. Qed.
+
+Lemma flatten_length : forall t, length (flatten t) = size t.
+Proof.
+  apply (tree_ind2 (fun t => length (flatten t) = size t)
+                   (fun cs => length (flat_map flatten cs) = forest_size cs)).
+  - reflexivity.
+  - intros r nm cs H. cbn [flatten size length]. rewrite H. reflexivity.
+  - reflexivity.
+  - intros t ts Ht Hts. cbn [flat_map]. rewrite app_length, Ht, Hts. reflexivity.
+Qed.
+
+Lemma flat_map_flatten_length : forall cs, length (flat_map flatten cs) = forest_size cs.
+Proof.
+  induction cs as [|c cs IH]; [reflexivity|].
+  cbn [flat_map]. rewrite app_length, flatten_length, IH. reflexivity.
+Qed.
+
+Lemma forest_size_cons : forall c cs, forest_size (c :: cs) = size c + forest_size cs.
+Proof. reflexivity. Qed.
+
+Lemma node_levels_length : forall t d r, length (node_levels d r t) = size t.
+Proof.
+  apply (tree_ind2 (fun t => forall d r, length (node_levels d r t) = size t)
+                   (fun cs => forall d r, length (flat_map (node_levels d r) cs) = forest_size cs)).
+  - reflexivity.
+  - intros rp nm cs H d r. cbn [node_levels size length]. rewrite H. reflexivity.
+  - reflexivity.
+  - intros t ts Ht Hts d r. cbn [flat_map]. rewrite app_length, Ht, Hts. reflexivity.
+Qed.
+
+Lemma nth_error_middle : forall A (pre : list A) x post, nth_error (pre ++ x :: post) (length pre) = Some x.
+Proof. intros. rewrite nth_error_app2 by lia. rewrite Nat.sub_diag. reflexivity. Qed.
+
+Lemma inc16_small : forall x, (0 <= x < 32767)%Z -> inc16 x = (x + 1)%Z.
+Proof. intros x H. unfold inc16. destruct (Z.eqb_spec (x + 1) 32768); [lia|reflexivity]. Qed.
+
+Lemma level_step_tree : forall e rp d r,
+  e_has_rep e = true -> e_rep e = rep_code rp -> (0 <= d < 32767)%Z -> (0 <= r < 32767)%Z ->
+  level_step e d r = ((d + cdef rp)%Z, (r + crep rp)%Z).
+Proof.
+  intros e rp d r Hh Hr Hd Hrr. unfold level_step. rewrite Hh, Hr.
+  destruct rp; cbn [rep_code cdef crep not_required is_repeated];
+    change E_CARQUET_REPETITION_OPTIONAL with 1%Z; change E_CARQUET_REPETITION_REPEATED with 2%Z;
+    cbn [Z.eqb Pos.eqb]; rewrite ?inc16_small by lia; f_equal; lia.
+Qed.
+
+Section Trees.
+  Variable elems : list elem.
+  Let n := length elems.
+  Hypothesis Hmax : n <= MAX_ELEMS.
+
+  Definition lvl_ok (depth : nat) (d r : Z) : Prop :=
+    (0 <= d <= Z.of_nat depth - 1)%Z /\ (0 <= r <= Z.of_nat depth - 1)%Z.
+
+  Definition Ptree (t : tree) : Prop := forall pre post fuel depth d r st,
+    elems = pre ++ flatten t ++ post -> wf t = true ->
+    2 * (n - length pre) + 1 <= fuel -> 1 <= depth <= length pre -> lvl_ok depth d r ->
+    length (paths_from (length pre) t) <= ts_room st ->
+    trav elems fuel depth (length pre) d r st =
+      Ok (length pre + size t,
+          mkT (ts_room st - length (paths_from (length pre) t))
+              (rev (map (lv d r) (paths_from (length pre) t)) ++ ts_leaves st)
+              (rev (node_levels d r t) ++ ts_nodes st)
+              (ts_calls st + size t)).
+
+  Definition Pforest (cs : list tree) : Prop := forall pre post fuel depth d r st,
+    elems = pre ++ flat_map flatten cs ++ post -> forallb wf cs = true ->
+    2 * (n - length pre) + 2 <= fuel -> 1 <= depth <= length pre -> lvl_ok depth d r ->
+    length (forest_from (length pre) cs) <= ts_room st ->
+    kids elems fuel depth (Z.of_nat (length cs)) (length pre) d r st =
+      Ok (length pre + forest_size cs,
+          mkT (ts_room st - length (forest_from (length pre) cs))
+              (rev (map (lv d r) (forest_from (length pre) cs)) ++ ts_leaves st)
+              (rev (flat_map (node_levels d r) cs) ++ ts_nodes st)
+              (ts_calls st + forest_size cs)).
+
+  Lemma n_split : forall pre mid post, elems = pre ++ mid ++ post -> n = length pre + length mid + length post.
+  Proof. intros pre mid post H. unfold n. rewrite H, !app_length. lia. Qed.
+
+  Lemma Ptree_leaf : forall rp i, Ptree (Leaf rp i).
+  Proof.
+      intros rp i pre post fuel depth d r st Hel _ Hfuel Hdep [Hd Hr] Hroom.
+      pose proof (n_split _ _ _ Hel) as Hn. cbn [flatten length] in Hn.
+      pose proof max_elems_int16 as H16.
+      destruct fuel as [|f]; [lia|]. rewrite trav_S. cbv zeta. fold n.
+      destruct (MAX_ELEMS <? depth) eqn:E1; [apply Nat.ltb_lt in E1; lia|].
+      destruct (n <=? length pre) eqn:E2; [apply Nat.leb_le in E2; lia|].
+      rewrite Hel. cbn [flatten app]. rewrite nth_error_middle.
+      rewrite (level_step_tree _ rp) by (try reflexivity; lia).
+      cbn [is_leaf_elem leaf_elem e_nc Z.eqb ts_room ts_leaves ts_nodes ts_calls].
+      cbn [paths_from length] in Hroom |- *.
+      destruct (ts_room st) as [|room] eqn:E3; [lia|].
+      cbn [size map rev app node_levels lv]. rewrite max_def_cons, max_rep_cons, max_def_nil, max_rep_nil.
+      unfold cdef, crep. repeat f_equal; lia.
+  Qed.
+
+  Lemma Ptree_group : forall rp nm cs, Pforest cs -> Ptree (Group rp nm cs).
+  Proof.
+      intros rp nm cs HQ pre post fuel depth d r st Hel Hwf Hfuel Hdep [Hd Hr] Hroom.
+      pose proof (n_split _ _ _ Hel) as Hn. cbn [flatten length] in Hn.
+      pose proof max_elems_int16 as H16.
+      cbn [wf] in Hwf. apply andb_true_iff in Hwf. destruct Hwf as [Hne Hwf].
+      destruct fuel as [|f]; [lia|]. rewrite trav_S. cbv zeta. fold n.
+      destruct (MAX_ELEMS <? depth) eqn:E1; [apply Nat.ltb_lt in E1; lia|].
+      destruct (n <=? length pre) eqn:E2; [apply Nat.leb_le in E2; lia|].
+      rewrite Hel at 1. cbn [flatten app]. rewrite nth_error_middle.
+      rewrite (level_step_tree _ rp) by (try reflexivity; lia).
+      assert (Hleaf : is_leaf_elem (group_elem (Some rp) nm (length cs)) = false).
+      { unfold is_leaf_elem. cbn [group_elem e_nc]. destruct cs; [discriminate Hne|].
+        cbn [length]. apply Z.eqb_neq. lia. }
+      rewrite Hleaf. cbn [group_elem e_nc ts_room ts_leaves ts_nodes ts_calls].
+      rewrite paths_from_group in Hroom |- *. rewrite map_length in Hroom |- *.
+      assert (Hel' : elems = (pre ++ [group_elem (Some rp) nm (length cs)]) ++ flat_map flatten cs ++ post).
+      { rewrite Hel. cbn [flatten]. rewrite <- app_assoc. reflexivity. }
+      assert (Hlen : length (pre ++ [group_elem (Some rp) nm (length cs)]) = S (length pre))
+        by (rewrite app_length; cbn [length]; lia).
+      specialize (HQ _ post f (S depth) (d + cdef rp)%Z (r + crep rp)%Z
+                     (mkT (ts_room st) (ts_leaves st) ((d + cdef rp, r + crep rp)%Z :: ts_nodes st) (S (ts_calls st)))
+                     Hel' Hwf).
+      rewrite Hlen in HQ. rewrite HQ; cbn [ts_room ts_leaves ts_nodes ts_calls]; try lia.
+      + cbn [size node_levels]. fold (cdef rp) (crep rp). fold (forest_size cs).
+        rewrite map_map. rewrite (map_ext _ _ (fun x => lv_push d r rp x)).
+        cbn [rev]. rewrite <- !app_assoc. cbn [app].
+        f_equal. f_equal; [lia|]. f_equal; lia.
+      + unfold lvl_ok, cdef, crep. destruct (not_required rp), (is_repeated rp); lia.
+  Qed.
+
+  Lemma Pforest_nil : Pforest [].
+  Proof.
+      intros pre post fuel depth d r st Hel _ Hfuel Hdep _ Hroom.
+      destruct fuel as [|f]; [lia|]. rewrite kids_S.
+      cbn [length Z.of_nat Z.ltb andb forest_from map rev app flat_map forest_size list_sum].
+      change (0 <? Z.of_nat 0)%Z with false. cbn [andb].
+      change (forest_size []) with 0.
+      f_equal. f_equal; [lia|].
+      destruct st as [a b c e]; cbn [ts_room ts_leaves ts_nodes ts_calls]. f_equal; lia.
+  Qed.
+
+  Lemma Pforest_cons : forall c cs, Ptree c -> Pforest cs -> Pforest (c :: cs).
+  Proof.
+      intros c cs HP HQ pre post fuel depth d r st Hel Hwf Hfuel Hdep Hlv Hroom.
+      cbn [forallb] in Hwf. apply andb_true_iff in Hwf. destruct Hwf as [Hwc Hwf].
+      cbn [flat_map] in Hel. rewrite <- app_assoc in Hel.
+      pose proof (n_split _ _ _ Hel) as Hn. rewrite flatten_length in Hn.
+      pose proof (size_pos c) as Hsz.
+      cbn [forest_from] in Hroom |- *. rewrite app_length in Hroom |- *.
+      destruct fuel as [|f]; [lia|]. rewrite kids_S. fold n.
+      assert (E1 : ((0 <? Z.of_nat (length (c :: cs)))%Z && (length pre <? n)) = true).
+      { apply andb_true_iff. split; [apply Z.ltb_lt; cbn [length]; lia|apply Nat.ltb_lt; lia]. }
+      rewrite E1.
+      rewrite (HP pre (flat_map flatten cs ++ post) f depth d r st Hel Hwc) by (try assumption; lia).
+      assert (Hel' : elems = (pre ++ flatten c) ++ flat_map flatten cs ++ post)
+        by (rewrite Hel, <- app_assoc; reflexivity).
+      assert (Hlen : length (pre ++ flatten c) = length pre + size c)
+        by (rewrite app_length, flatten_length; reflexivity).
+      specialize (HQ _ post f depth d r
+                     (mkT (ts_room st - length (paths_from (length pre) c))
+                          (rev (map (lv d r) (paths_from (length pre) c)) ++ ts_leaves st)
+                          (rev (node_levels d r c) ++ ts_nodes st) (ts_calls st + size c)) Hel' Hwf).
+      rewrite Hlen in HQ.
+      replace (Z.of_nat (length (c :: cs)) - 1)%Z with (Z.of_nat (length cs)) by (cbn [length]; lia).
+      rewrite HQ; cbn [ts_room ts_leaves ts_nodes ts_calls]; try lia; try assumption.
+      rewrite forest_size_cons. cbn [flat_map]. rewrite map_app, !rev_app_distr, <- !app_assoc.
+      f_equal. f_equal; [lia|]. f_equal; lia.
+  Qed.
+
+  Lemma trav_tree : forall t, Ptree t.
+  Proof. exact (tree_ind2 Ptree Pforest Ptree_leaf Ptree_group Pforest_nil Pforest_cons). Qed.
+
+  Lemma kids_forest : forall cs, Pforest cs.
+  Proof. exact (forest_ind2 Ptree Pforest Ptree_leaf Ptree_group Pforest_nil Pforest_cons). Qed.
+End Trees.
+
+Lemma has_name_flatten : forall t, forallb has_name (flatten t) = true.
+Proof.
+  apply (tree_ind2 (fun t => forallb has_name (flatten t) = true)
+                   (fun cs => forallb has_name (flat_map flatten cs) = true)).
+  - reflexivity.
+  - intros r nm cs H. cbn [flatten forallb]. rewrite H. reflexivity.
+  - reflexivity.
+  - intros t ts Ht Hts. cbn [flat_map]. rewrite forallb_app, Ht, Hts. reflexivity.
+Qed.
+
+Lemma has_name_forest : forall cs, forallb has_name (flat_map flatten cs) = true.
+Proof.
+  induction cs as [|c cs IH]; [reflexivity|]. cbn [flat_map]. rewrite forallb_app, has_name_flatten, IH. reflexivity.
+Qed.
+
+Lemma count_leaves_flatten : forall t, wf t = true -> forall s, count_leaves (flatten t) = length (paths_from s t).
+Proof.
+  apply (tree_ind2 (fun t => wf t = true -> forall s, count_leaves (flatten t) = length (paths_from s t))
+                   (fun cs => forallb wf cs = true -> forall s, count_leaves (flat_map flatten cs) = length (forest_from s cs))).
+  - reflexivity.
+  - intros r nm cs H Hwf s. cbn [wf] in Hwf. apply andb_true_iff in Hwf. destruct Hwf as [Hne Hwf].
+    rewrite paths_from_group, map_length. cbn [flatten count_leaves].
+    assert (Hl : is_leaf_elem (group_elem (Some r) nm (length cs)) = false).
+    { unfold is_leaf_elem. cbn [group_elem e_nc]. destruct cs; [discriminate Hne|]. cbn [length]. apply Z.eqb_neq. lia. }
+    rewrite Hl. apply H. exact Hwf.
+  - reflexivity.
+  - intros t ts Ht Hts Hwf s. cbn [forallb] in Hwf. apply andb_true_iff in Hwf. destruct Hwf as [H1 H2].
+    cbn [flat_map forest_from]. rewrite count_leaves_app, app_length, (Ht H1 s), (Hts H2 (s + size t)). reflexivity.
+Qed.
+
+Lemma count_leaves_forest : forall cs, forallb wf cs = true -> forall s,
+  count_leaves (flat_map flatten cs) = length (forest_from s cs).
+Proof.
+  induction cs as [|c cs IH]; intros Hwf s; [reflexivity|].
+  cbn [forallb] in Hwf. apply andb_true_iff in Hwf. destruct Hwf as [H1 H2].
+  cbn [flat_map forest_from]. rewrite count_leaves_app, app_length, (count_leaves_flatten c H1 s), (IH H2 (s + size c)). reflexivity.
+Qed.
+
+Lemma paths_nonempty : forall t s, wf t = true -> 1 <= length (paths_from s t).
+Proof.
+  apply (tree_ind2 (fun t => forall s, wf t = true -> 1 <= length (paths_from s t))
+                   (fun l => forall s, l <> [] -> forallb wf l = true -> 1 <= length (forest_from s l))).
+  - intros. cbn. lia.
+  - intros r nm l H s Hw. cbn [wf] in Hw. apply andb_true_iff in Hw. destruct Hw as [A B].
+    rewrite paths_from_group, map_length. apply H; [destruct l; [discriminate A|congruence]|exact B].
+  - intros s H. congruence.
+  - intros t ts Ht _ s _ Hw. cbn [forallb] in Hw. apply andb_true_iff in Hw. destruct Hw as [A B].
+    cbn [forest_from]. rewrite app_length. specialize (Ht s A). lia.
+Qed.
+
+(** (element index, max def, max rep) of a leaf record *)
+Definition leaf_levels (x : lrec) : nat * Z * Z := match x with (pos, p, _) => (pos, max_def p, max_rep p) end.
+
+Lemma lv_0 : forall x, lv 0 0 x = leaf_levels x.
+Proof. intros [[pos p] i]. unfold lv, leaf_levels. rewrite !Z.add_0_l. reflexivity. Qed.
+
+Definition tree_schema (rr : option repetition) (nm : N) (children : list tree) : schema :=
+  mkSchema (schema_of rr nm children)
+           (map leaf_levels (leaves children))
+           ((0%Z, 0%Z) :: flat_map (node_levels 0 0) children)
+           (forest_size children).
+
+(** ** levels_correct *)
+Theorem levels_correct_thm : forall rr nm children,
+  children <> [] -> forallb wf children = true -> S (forest_size children) <= MAX_ELEMS ->
+  build_schema (schema_of rr nm children) = Ok (tree_schema rr nm children).
+Proof.
+  intros rr nm children Hne Hwf Hmax.
+  set (root := group_elem rr nm (length children)).
+  assert (Hn : length (schema_of rr nm children) = S (forest_size children)).
+  { unfold schema_of. cbn [length]. rewrite flat_map_flatten_length. reflexivity. }
+  assert (Hsz : 1 <= forest_size children).
+  { destruct children as [|c cs]; [congruence|]. rewrite forest_size_cons. pose proof (size_pos c). lia. }
+  assert (Hroot : is_leaf_elem root = false).
+  { unfold is_leaf_elem, root. cbn [group_elem e_nc]. destruct children; [congruence|]. cbn [length]. apply Z.eqb_neq. lia. }
+  assert (Hcl : count_leaves (schema_of rr nm children) = length (leaves children)).
+  { unfold schema_of. fold root. cbn [count_leaves]. rewrite Hroot. apply count_leaves_forest. exact Hwf. }
+  unfold build_schema.
+  assert (Hnames : forallb has_name (schema_of rr nm children) = true).
+  { unfold schema_of. cbn [forallb]. rewrite has_name_forest. reflexivity. }
+  rewrite Hnames. cbn [negb]. rewrite Hcl.
+  assert (Hlv : 1 <= length (leaves children)).
+  { rewrite <- Hcl. unfold schema_of. fold root. cbn [count_leaves]. rewrite Hroot.
+    destruct children as [|c cs]; [congruence|]. cbn [flat_map]. rewrite count_leaves_app.
+    cbn [forallb] in Hwf. apply andb_true_iff in Hwf. destruct Hwf as [Hwc _].
+    rewrite (count_leaves_flatten c Hwc 0). destruct c; cbn [paths_from length]; [lia|].
+    cbn [wf] in Hwc. apply andb_true_iff in Hwc. destruct Hwc as [Hne2 Hwc].
+    (* a group has at least one leaf below it: shown through count_leaves of its flattening *)
+    clear - Hne2 Hwc. rewrite map_length.
+    pose proof paths_nonempty as G.
+    destruct cs0 as [|c0 cs0]; [discriminate Hne2|].
+    cbn [forallb] in Hwc. apply andb_true_iff in Hwc. destruct Hwc as [A B].
+    cbn [forest_from]. rewrite app_length. specialize (G c0 1 A). lia. }
+  destruct (length (leaves children)) as [|nl] eqn:Enl; [lia|]. rewrite <- Enl. clear Hlv.
+  unfold compute_levels. rewrite Hn.
+  destruct (S (forest_size children) <=? 1) eqn:E1; [apply Nat.leb_le in E1; lia|].
+  unfold schema_of at 1. fold root. cbn [nth_error].
+  assert (Hk := kids_forest (schema_of rr nm children) ltac:(rewrite Hn; exact Hmax) children [root] []
+                            (fuel_of (schema_of rr nm children)) 1 0%Z 0%Z
+                            (mkT (length (leaves children)) [] [] 0)).
+  cbn [length ts_room ts_leaves ts_nodes ts_calls] in Hk.
+  unfold root at 1. cbn [group_elem e_nc]. fold root.
+  rewrite Hk; clear Hk.
+  - unfold tree_schema, leaves. cbn [ts_room ts_leaves ts_nodes ts_calls].
+    rewrite Nat.sub_diag, !app_nil_r, !rev_involutive.
+    rewrite (map_ext _ _ lv_0). unfold pad. cbn [repeat]. rewrite app_nil_r.
+    cbn [length].
+    replace (length (flat_map (node_levels 0 0) children)) with (forest_size children).
+    + rewrite Nat.sub_diag. cbn [repeat]. rewrite app_nil_r. reflexivity.
+    + clear. induction children as [|c cs IH]; [reflexivity|].
+      cbn [flat_map]. rewrite app_length, node_levels_length, forest_size_cons, <- IH. reflexivity.
+  - unfold schema_of. fold root. rewrite app_nil_r. reflexivity.
+  - exact Hwf.
+  - unfold fuel_of. rewrite Hn. lia.
+  - lia.
+  - unfold lvl_ok. lia.
+  - unfold leaves. lia.
+Qed.
+
+Example levels_correct_nontrivial :
+  let L := fun r n => Leaf r (mkLeaf n 1 0 None) in
+  let children := [L Optional 1%N; Group Optional 2%N [L Required 3%N; L Optional 4%N];
+                   Group Repeated 5%N [L Required 6%N; Group Optional 7%N [L Repeated 8%N]]] in
+  forallb wf children = true /\
+  map leaf_levels (leaves children) = [(1, 1%Z, 0%Z); (3, 1%Z, 0%Z); (4, 2%Z, 0%Z); (6, 1%Z, 1%Z); (8, 3%Z, 2%Z)].
+Proof. split; reflexivity. Qed.
+
+(** ** what the accessors return for the columns of a tree schema *)
+
+Definition leaf_elem_of (p : list repetition) (i : leaf_info) : elem :=
+  mkElem (Some (li_name i)) true (li_type i) (li_tlen i) true (last_rep p) 0 (li_logical i).
+
+Lemma last_rep_cons : forall r p, p <> [] -> last_rep (r :: p) = last_rep p.
+Proof.
+  intros r p H. unfold last_rep. cbn [rev].
+  destruct (rev p) as [|x xs] eqn:E.
+  - apply (f_equal (@rev _)) in E. rewrite rev_involutive in E. cbn in E. congruence.
+  - reflexivity.
+Qed.
+
+(** a leaf record is consistent with an element list / node-level list that starts at index [start] *)
+Definition pos_ok (es : list elem) (nl : list (Z * Z)) (start : nat) (d r : Z) (x : lrec) : Prop :=
+  match x with
+  | (pos, p, i) =>
+      start <= pos < start + length es /\
+      nth_error es (pos - start) = Some (leaf_elem_of p i) /\
+      nth_error nl (pos - start) = Some ((d + max_def p)%Z, (r + max_rep p)%Z) /\
+      p <> []
+  end.
+
+Lemma paths_pos : forall t start d r,
+  Forall (pos_ok (flatten t) (node_levels d r t) start d r) (paths_from start t).
+Proof.
+  apply (tree_ind2
+           (fun t => forall start d r, Forall (pos_ok (flatten t) (node_levels d r t) start d r) (paths_from start t))
+           (fun cs => forall start d r,
+                Forall (pos_ok (flat_map flatten cs) (flat_map (node_levels d r) cs) start d r) (forest_from start cs))).
+  - intros rp i start d r. cbn [paths_from]. constructor; [|constructor].
+    unfold pos_ok. cbn [flatten length node_levels]. rewrite Nat.sub_diag. cbn [nth_error].
+    repeat split; try lia.
+    + rewrite max_def_cons, max_rep_cons, max_def_nil, max_rep_nil. unfold cdef, crep. repeat f_equal; lia.
+    + discriminate.
+  - intros rp nm cs H start d r. rewrite paths_from_group.
+    apply Forall_forall. intros x Hx. apply in_map_iff in Hx. destruct Hx as ([[pos p] i] & <- & Hin).
+    specialize (H (S start) (d + cdef rp)%Z (r + crep rp)%Z).
+    rewrite Forall_forall in H. specialize (H _ Hin). unfold pos_ok in H |- *. cbn [push].
+    destruct H as (Hr & He & Hl & Hp).
+    cbn [flatten length node_levels]. fold (cdef rp) (crep rp).
+    replace (pos - start) with (S (pos - S start)) by lia. cbn [nth_error].
+    repeat split; try lia.
+    + rewrite He. unfold leaf_elem_of. rewrite (last_rep_cons rp p Hp). reflexivity.
+    + rewrite Hl, max_def_cons, max_rep_cons. f_equal. f_equal; lia.
+    + discriminate.
+  - intros. constructor.
+  - intros c cs Hc Hcs start d r. cbn [forest_from flat_map]. apply Forall_app. split.
+    + specialize (Hc start d r). eapply Forall_impl; [|exact Hc].
+      intros [[pos p] i] (Hr & He & Hl & Hp). unfold pos_ok. rewrite app_length, flatten_length.
+      rewrite flatten_length in Hr.
+      rewrite nth_error_app1 by (rewrite flatten_length; lia).
+      rewrite nth_error_app1 by (rewrite node_levels_length; lia).
+      repeat split; try assumption; lia.
+    + specialize (Hcs (start + size c) d r). eapply Forall_impl; [|exact Hcs].
+      intros [[pos p] i] (Hr & He & Hl & Hp). unfold pos_ok. rewrite app_length, flatten_length.
+      rewrite nth_error_app2 by (rewrite flatten_length; lia).
+      rewrite nth_error_app2 by (rewrite node_levels_length; lia).
+      rewrite flatten_length, node_levels_length.
+      replace (pos - start - size c) with (pos - (start + size c)) by lia.
+      repeat split; try assumption; lia.
+Qed.
+
+Lemma forest_pos : forall cs start d r,
+  Forall (pos_ok (flat_map flatten cs) (flat_map (node_levels d r) cs) start d r) (forest_from start cs).
+Proof.
+  induction cs as [|c cs IH]; intros start d r; [constructor|].
+  cbn [forest_from flat_map]. apply Forall_app. split.
+  - eapply Forall_impl; [|exact (paths_pos c start d r)].
+    intros [[pos p] i] (Hr & He & Hl & Hp). unfold pos_ok. rewrite app_length, flatten_length.
+    rewrite flatten_length in Hr.
+    rewrite nth_error_app1 by (rewrite flatten_length; lia).
+    rewrite nth_error_app1 by (rewrite node_levels_length; lia).
+    repeat split; try assumption; lia.
+  - eapply Forall_impl; [|exact (IH (start + size c) d r)].
+    intros [[pos p] i] (Hr & He & Hl & Hp). unfold pos_ok. rewrite app_length, flatten_length.
+    rewrite nth_error_app2 by (rewrite flatten_length; lia).
+    rewrite nth_error_app2 by (rewrite node_levels_length; lia).
+    rewrite flatten_length, node_levels_length.
+    replace (pos - start - size c) with (pos - (start + size c)) by lia.
+    repeat split; try assumption; lia.
+Qed.
+
+(** the element and the node levels the accessors find for a leaf of the schema *)
+Lemma tree_schema_get : forall rr nm children pos p i,
+  In (pos, p, i) (leaves children) ->
+  get_element (tree_schema rr nm children) (Z.of_nat pos) =
+    Some (leaf_elem_of p i, (max_def p, max_rep p)).
+Proof.
+  intros rr nm children pos p i Hin.
+  pose proof (forest_pos children 1 0%Z 0%Z) as H. rewrite Forall_forall in H.
+  specialize (H _ Hin). unfold pos_ok in H. destruct H as (Hr & He & Hl & _).
+  unfold get_element, num_elements, tree_schema. cbn [s_elems s_nodes].
+  unfold schema_of. cbn [length].
+  destruct ((Z.of_nat pos <? 0)%Z || (Z.of_nat (S (length (flat_map flatten children))) <=? Z.of_nat pos)%Z) eqn:E.
+  - apply orb_true_iff in E. destruct E as [E|E]; [apply Z.ltb_lt in E; lia|apply Z.leb_le in E; lia].
+  - rewrite Nat2Z.id. replace pos with (S (pos - 1)) by lia. cbn [nth_error].
+    rewrite He, Hl, !Z.add_0_l. reflexivity.
+Qed.
+
+Lemma all_ok_map : forall A B (f : A -> res B) (g : A -> B) l,
+  (forall x, In x l -> f x = Ok (g x)) -> all_ok (map f l) = Ok (map g l).
+Proof.
+  intros A B f g l. induction l as [|x l IH]; intro H; [reflexivity|].
+  cbn [map all_ok]. rewrite (H x (or_introl eq_refl)), IH; [reflexivity|].
+  intros y Hy. apply H. right. exact Hy.
+Qed.
+
+Theorem reader_columns_tree : forall rr nm children,
+  reader_columns (tree_schema rr nm children) = Ok (columns children).
+Proof.
+  intros rr nm children. unfold reader_columns, columns.
+  change (s_leaves (tree_schema rr nm children)) with (map leaf_levels (leaves children)).
+  rewrite map_map. apply all_ok_map.
+  intros [[pos p] i] Hin. unfold column_view, leaf_levels.
+  rewrite (tree_schema_get rr nm children pos p i Hin). reflexivity.
+Qed.
+
+Theorem accessor_levels_tree : forall rr nm children,
+  accessor_levels (tree_schema rr nm children) = map (fun c => Some (c_def c, c_rep c)) (columns children).
+Proof.
+  intros rr nm children. unfold accessor_levels, columns.
+  change (s_leaves (tree_schema rr nm children)) with (map leaf_levels (leaves children)).
+  rewrite !map_map. apply map_ext_in.
+  intros [[pos p] i] Hin. unfold leaf_levels.
+  rewrite (tree_schema_get rr nm children pos p i Hin). reflexivity.
+Qed.
+
+Lemma find_from_tree : forall es name (ls : list lrec) i,
+  (forall pos p li, In (pos, p, li) ls -> nth_error es pos = Some (leaf_elem_of p li)) ->
+  find_from es name i (map leaf_levels ls) = Ok (find_name name i (map textbook ls)).
+Proof.
+  intros es name ls. induction ls as [|[[pos p] li] tl IH]; intros i H; [reflexivity|].
+  cbn [map leaf_levels find_from textbook find_name c_name].
+  rewrite (H pos p li (or_introl eq_refl)). cbn [leaf_elem_of e_name].
+  destruct (N.eqb (li_name li) name); [reflexivity|].
+  apply IH. intros pos' p' li' Hin. apply (H pos' p' li'). right. exact Hin.
+Qed.
+
+Theorem find_column_tree : forall rr nm children name,
+  find_column (tree_schema rr nm children) name = Ok (find_name name 0%Z (columns children)).
+Proof.
+  intros rr nm children name. unfold find_column, columns.
+  change (s_leaves (tree_schema rr nm children)) with (map leaf_levels (leaves children)).
+  apply find_from_tree. intros pos p li Hin.
+  pose proof (forest_pos children 1 0%Z 0%Z) as H. rewrite Forall_forall in H.
+  specialize (H _ Hin). unfold pos_ok in H. destruct H as (Hr & He & _).
+  cbn [s_elems tree_schema]. unfold schema_of.
+  replace pos with (S (pos - 1)) by lia. cbn [nth_error]. exact He.
+Qed.
+
+(** every element accessor returns what the file states: get_element on a tree schema is the stored
+    element paired with the textbook levels of that node *)
+Theorem get_element_tree : forall rr nm children k,
+  k < S (forest_size children) ->
+  exists e lv, get_element (tree_schema rr nm children) (Z.of_nat k) = Some (e, lv) /\
+               nth_error (schema_of rr nm children) k = Some e /\
+               nth_error ((0%Z, 0%Z) :: flat_map (node_levels 0 0) children) k = Some lv.
+Proof.
+  intros rr nm children k Hk.
+  assert (Hn : length (schema_of rr nm children) = S (forest_size children)).
+  { unfold schema_of. cbn [length]. rewrite flat_map_flatten_length. reflexivity. }
+  assert (Hm : length ((0%Z, 0%Z) :: flat_map (node_levels 0 0) children) = S (forest_size children)).
+  { cbn [length]. f_equal. clear. induction children as [|c cs IH]; [reflexivity|].
+    cbn [flat_map]. rewrite app_length, node_levels_length, forest_size_cons, IH. reflexivity. }
+  destruct (nth_error (schema_of rr nm children) k) as [e|] eqn:E1; [|apply nth_error_None in E1; lia].
+  destruct (nth_error ((0%Z, 0%Z) :: flat_map (node_levels 0 0) children) k) as [l|] eqn:E2;
+    [|apply nth_error_None in E2; lia].
+  exists e, l. split; [|split; reflexivity].
+  unfold get_element, num_elements, tree_schema. cbn [s_elems s_nodes]. rewrite Hn.
+  destruct ((Z.of_nat k <? 0)%Z || (Z.of_nat (S (forest_size children)) <=? Z.of_nat k)%Z) eqn:E.
+  - apply orb_true_iff in E. destruct E as [E|E]; [apply Z.ltb_lt in E; lia|apply Z.leb_le in E; lia].
+  - rewrite Nat2Z.id, E1, E2. reflexivity.
+Qed.
+
+(** ------------------------------------------------------------------------------------------------
+    Part 3: the builder *)
+
+(** one add_column call: name, physical type, logical type, repetition, type_length *)
+Definition colspec : Type := N * Z * option N * repetition * Z.
+
+Definition leaf_of (c : colspec) : tree :=
+  match c with (nm, ty, lg, rp, tl) => Leaf rp (mkLeaf nm ty tl lg) end.
+
+Definition op_of (c : colspec) : bop :=
+  match c with (nm, ty, lg, rp, tl) => AddColumn nm ty lg (rep_code rp) tl end.
+
+Definition flat_state (cols : list colspec) (cap : Z) : bschema :=
+  let ts := map leaf_of cols in
+  mkB (schema_of None ROOT_NAME ts) ((0%Z, 0%Z) :: flat_map (node_levels 0 0) ts) cap (map leaf_levels (leaves ts)).
+
+Lemma forest_from_app : forall a b s, forest_from s (a ++ b) = forest_from s a ++ forest_from (s + forest_size a) b.
+Proof.
+  induction a as [|c a IH]; intros b s.
+  - cbn [app forest_from]. change (forest_size []) with 0. rewrite Nat.add_0_r. reflexivity.
+  - cbn [app forest_from]. rewrite IH, forest_size_cons, <- app_assoc.
+    replace (s + size c + forest_size a) with (s + (size c + forest_size a)) by lia. reflexivity.
+Qed.
+
+Lemma forest_size_flat : forall cols, forest_size (map leaf_of cols) = length cols.
+Proof.
+  induction cols as [|[[[[nm ty] lg] rp] tl] cols IH]; [reflexivity|].
+  cbn [map]. rewrite forest_size_cons, IH. reflexivity.
+Qed.
+
+Lemma own_def_code : forall rp, own_def (rep_code rp) = cdef rp.
+Proof. intros []; reflexivity. Qed.
+Lemma own_rep_code : forall rp, own_rep (rep_code rp) = crep rp.
+Proof. intros []; reflexivity. Qed.
+
+Lemma growth_factor_2 : GROWTH_FACTOR = 2%Z. Proof. reflexivity. Qed.
+Lemma initial_capacity_pos : (1 <= INITIAL_CAPACITY)%Z. Proof. vm_compute. discriminate. Qed.
+
+Lemma ensure_capacity_ok : forall s req,
+  (1 <= b_capacity s)%Z -> (req <= b_capacity s + 1)%Z ->
+  exists cap', ensure_capacity s req = Ok (mkB (b_elems s) (b_nodes s) cap' (b_leaves s)) /\
+               (req <= cap')%Z /\ (b_capacity s <= cap')%Z.
+Proof.
+  intros s req H1 H2. unfold ensure_capacity.
+  destruct (req <=? b_capacity s)%Z eqn:E.
+  - apply Z.leb_le in E. exists (b_capacity s). destruct s; cbn in *. split; [reflexivity|lia].
+  - apply Z.leb_gt in E.
+    change (grow 64 (b_capacity s) req) with
+      (if (b_capacity s <? req)%Z then grow 63 (b_capacity s * GROWTH_FACTOR)%Z req else Ok (b_capacity s)).
+    destruct (b_capacity s <? req)%Z eqn:E2; [|apply Z.ltb_ge in E2; lia].
+    change (grow 63 (b_capacity s * GROWTH_FACTOR)%Z req) with
+      (if (b_capacity s * GROWTH_FACTOR <? req)%Z then grow 62 (b_capacity s * GROWTH_FACTOR * GROWTH_FACTOR)%Z req
+       else Ok (b_capacity s * GROWTH_FACTOR)%Z).
+    rewrite growth_factor_2.
+    destruct (b_capacity s * 2 <? req)%Z eqn:E3; [apply Z.ltb_lt in E3; lia|].
+    exists (b_capacity s * 2)%Z. split; [reflexivity|lia].
+Qed.
+
+Lemma add_column_flat : forall cols cap nm ty lg rp tl,
+  (1 <= cap)%Z -> (Z.of_nat (length cols) + 1 <= cap)%Z ->
+  exists cap', add_column (flat_state cols cap) nm ty lg (rep_code rp) tl
+               = Ok (flat_state (cols ++ [(nm, ty, lg, rp, tl)]) cap') /\
+               (Z.of_nat (length cols) + 2 <= cap')%Z /\ (1 <= cap')%Z.
+Proof.
+  intros cols cap nm ty lg rp tl Hc1 Hc2.
+  assert (Hlen : length (b_elems (flat_state cols cap)) = S (length cols)).
+  { unfold flat_state, schema_of. cbn [b_elems length]. rewrite flat_map_flatten_length, forest_size_flat. reflexivity. }
+  unfold add_column.
+  destruct (ensure_capacity_ok (flat_state cols cap) (Z.of_nat (length (b_elems (flat_state cols cap))) + 1)%Z)
+    as (cap' & He & Hr & Hm).
+  { exact Hc1. } { rewrite Hlen. cbn [b_capacity flat_state]. lia. }
+  rewrite He. clear He. rewrite Hlen in Hr.
+  unfold push_elem. cbn [b_elems b_nodes b_capacity b_leaves].
+  change (b_elems (flat_state cols cap)) with (schema_of None ROOT_NAME (map leaf_of cols)) in *.
+  rewrite Hlen.
+  destruct (Z.of_nat (S (length cols)) <? cap')%Z eqn:E1; [|apply Z.ltb_ge in E1; lia].
+  unfold schema_of at 1. cbn [app bump_root group_elem e_name e_has_type e_type e_tlen e_has_rep e_rep e_nc e_logical].
+  cbn [b_elems b_nodes b_capacity b_leaves flat_state].
+  rewrite map_length.
+  assert (Hl : length (leaves (map leaf_of cols)) = length cols).
+  { unfold leaves. clear. generalize 1. induction cols as [|[[[[a b] c] d] e] cols IH]; intro s; [reflexivity|].
+    cbn [map leaf_of forest_from paths_from app length]. rewrite IH. reflexivity. }
+  rewrite Hl.
+  destruct (Z.of_nat (length cols) <? cap')%Z eqn:E2; [|apply Z.ltb_ge in E2; lia].
+  exists cap'. split; [|lia].
+  unfold flat_state. rewrite !map_app. cbn [map leaf_of].
+  f_equal. f_equal.
+  - (* elements *)
+    unfold schema_of. rewrite flat_map_app. cbn [flat_map flatten app].
+    rewrite app_length, map_length. cbn [length]. unfold group_elem, leaf_elem. cbn [li_name li_type li_tlen li_logical].
+    f_equal. f_equal. lia.
+  - (* node levels *)
+    rewrite flat_map_app. cbn [flat_map node_levels app].
+    rewrite own_def_code, own_rep_code. unfold cdef, crep. rewrite !Z.add_0_l. reflexivity.
+  - (* leaf arrays *)
+    unfold leaves. rewrite forest_from_app, forest_size_flat, map_app.
+    cbn [forest_from paths_from app map leaf_levels].
+    rewrite own_def_code, own_rep_code, max_def_cons, max_rep_cons, max_def_nil, max_rep_nil, !Z.add_0_r.
+    rewrite (Nat.add_comm 1). reflexivity.
+Qed.
+
+Lemma run_ops_flat : forall rest pre cap acc,
+  (1 <= cap)%Z -> (Z.of_nat (length pre) + 1 <= cap)%Z ->
+  exists cap', run_ops (flat_state pre cap) (map op_of rest) acc
+               = Ok (flat_state (pre ++ rest) cap', rev acc ++ repeat 0%Z (length rest)) /\
+               (Z.of_nat (length (pre ++ rest)) + 1 <= cap')%Z.
+Proof.
+  induction rest as [|[[[[nm ty] lg] rp] tl] rest IH]; intros pre cap acc H1 H2.
+  - exists cap. cbn [map run_ops length repeat]. rewrite !app_nil_r. split; [reflexivity|exact H2].
+  - cbn [map op_of run_ops].
+    destruct (add_column_flat pre cap nm ty lg rp tl H1 H2) as (cap1 & Ha & Hb & Hc).
+    rewrite Ha.
+    destruct (IH (pre ++ [(nm, ty, lg, rp, tl)]) cap1 (0%Z :: acc) Hc) as (cap2 & Hr & Hd).
+    { rewrite app_length. cbn [length]. lia. }
+    exists cap2. rewrite Hr. rewrite <- app_assoc. cbn [app rev length repeat]. rewrite <- app_assoc.
+    split; [reflexivity|]. rewrite <- app_assoc in Hd. exact Hd.
+Qed.
+
+(** ** builder: any number of add_column calls gives the schema of the flat tree *)
+Theorem builder_flat_correct_thm : forall cols : list colspec,
+  exists b, run_ops schema_create (map op_of cols) [] = Ok (b, repeat 0%Z (length cols)) /\
+            b_elems b = s_elems (tree_schema None ROOT_NAME (map leaf_of cols)) /\
+            b_leaves b = s_leaves (tree_schema None ROOT_NAME (map leaf_of cols)) /\
+            b_nodes b = s_nodes (tree_schema None ROOT_NAME (map leaf_of cols)) /\
+            (Z.of_nat (length (b_elems b)) <= b_capacity b)%Z.
+Proof.
+  intro cols.
+  change schema_create with (flat_state [] INITIAL_CAPACITY).
+  pose proof initial_capacity_pos as Hi.
+  destruct (run_ops_flat cols [] INITIAL_CAPACITY [] Hi) as (cap & Hr & Hc).
+  { cbn [length]. lia. }
+  cbn [app rev] in Hr, Hc.
+  exists (flat_state cols cap). split; [exact Hr|].
+  unfold flat_state, tree_schema. cbn [b_elems b_leaves b_nodes b_capacity s_elems s_leaves s_nodes].
+  repeat split.
+  unfold schema_of. cbn [length]. rewrite flat_map_flatten_length, forest_size_flat. lia.
+Qed.
+
+Example builder_300_columns :
+  (* growth past the initial capacity 64: 300 columns need capacity 512 *)
+  let cols := map (fun k => (N.of_nat k, 1%Z, None, Optional, 0%Z)) (seq 1 300) in
+  exists b, run_ops schema_create (map op_of cols) [] = Ok (b, repeat 0%Z 300) /\
+            b_capacity b = 512%Z /\ length (b_leaves b) = 300.
+Proof. eexists. split; [vm_compute; reflexivity|split; reflexivity]. Qed.
+
+(** ------------------------------------------------------------------------------------------------
+    The statements restated in Props/Properties_C17.v *)
+
+Definition valid_schema (children : list tree) : Prop :=
+  children <> [] /\ forallb wf children = true /\ S (forest_size children) <= MAX_ELEMS.
+
+Theorem levels_correct_full : forall rr nm children, valid_schema children ->
+  exists s, build_schema (schema_of rr nm children) = Ok s /\
+            (* the per-leaf arrays: element index, max definition level, max repetition level *)
+            s_leaves s = map (fun c => (c_elem c, c_def c, c_rep c)) (columns children) /\
+            (* what the reader exposes per column through the arrays and the element accessors *)
+            reader_columns s = Ok (columns children) /\
+            (* the per-node level accessors on the leaf elements *)
+            accessor_levels s = map (fun c => Some (c_def c, c_rep c)) (columns children) /\
+            (* lookup by name: first column of that name, or -1 *)
+            (forall name, find_column s name = Ok (find_name name 0%Z (columns children))) /\
+            num_columns s = Z.of_nat (length (columns children)).
+Proof.
+  intros rr nm children (H1 & H2 & H3).
+  exists (tree_schema rr nm children).
+  split; [apply levels_correct_thm; assumption|].
+  split.
+  { cbn [tree_schema s_leaves]. unfold columns. rewrite map_map. apply map_ext.
+    intros [[pos p] i]. reflexivity. }
+  split; [apply reader_columns_tree|].
+  split; [apply accessor_levels_tree|].
+  split; [intro name; apply find_column_tree|].
+  unfold num_columns, columns. cbn [tree_schema s_leaves]. rewrite !map_length. reflexivity.
+Qed.
+
+Example valid_schema_nontrivial :
+  valid_schema [Leaf Optional (mkLeaf 1 1 0 None);
+                Group Repeated 2 [Leaf Required (mkLeaf 3 2 0 None); Group Optional 4 [Leaf Repeated (mkLeaf 5 6 0 (Some 10000%N))]]].
+Proof.
+  split; [discriminate|]. split; [reflexivity|].
+  apply Nat.leb_le. vm_compute. reflexivity.
+Qed.
+
+Theorem element_accessors_correct : forall rr nm children, valid_schema children ->
+  exists s, build_schema (schema_of rr nm children) = Ok s /\
+    num_elements s = Z.of_nat (length (schema_of rr nm children)) /\
+    get_element s (-1)%Z = None /\ get_element s (num_elements s) = None /\
+    forall k, k < length (schema_of rr nm children) ->
+      exists e lv, get_element s (Z.of_nat k) = Some (e, lv) /\
+                   (* name, is_leaf, physical type, type length, logical type, repetition: the stored element *)
+                   nth_error (schema_of rr nm children) k = Some e /\
+                   (* max_def_level / max_rep_level: the textbook levels of that node *)
+                   nth_error ((0%Z, 0%Z) :: flat_map (node_levels 0 0) children) k = Some lv.
+Proof.
+  intros rr nm children (H1 & H2 & H3).
+  exists (tree_schema rr nm children).
+  split; [apply levels_correct_thm; assumption|].
+  split; [reflexivity|].
+  split; [reflexivity|].
+  split.
+  { unfold get_element. rewrite Z.leb_refl, orb_true_r. reflexivity. }
+  intros k Hk. apply get_element_tree.
+  unfold schema_of in Hk. cbn [length] in Hk. rewrite flat_map_flatten_length in Hk. exact Hk.
+Qed.
